@@ -1,3 +1,3 @@
-CONSTANT Want = {"C47_Cutoff", "C47_Hashed", "C47_Preempt", "C47_Valve", "C47_Audit", "C47_Concurrent", "C47_Line", "C47_MultiCloser", "C47_MultiFlusher", "C47_FlushCloser", "C47_Exact", "C47_Digest", "C47_Schedule", "C47_ScheduleCompleted", "C47_DriverInSpace", "C47_TraceAccepted"}
+CONSTANT Want = {"C47_Cutoff", "C47_Hashed", "C47_Preempt", "C47_Valve", "C47_Audit", "C47_Concurrent", "C47_Line", "C47_MultiCloser", "C47_MultiFlusher", "C47_FlushCloser", "C47_Exact", "C47_Digest", "C47_Schedule", "C47_ShutDiscards", "C47_ScheduleCompleted", "C47_DriverInSpace", "C47_TraceAccepted"}
 SPECIFICATION TSpec
 CHECK_DEADLOCK FALSE
